@@ -59,6 +59,7 @@ type Config struct {
 	Pin          map[string]uint64 // concrete values for nondeterministic inputs (validation mode)
 	SampleEvery  int // keep a model for cross-validation every N completed paths
 	Seed         int
+	NoElide      bool // disable elision of logging-only branches
 	Stubs        map[string]string // function name -> "zero": body replaced by returning zero values (listed in evidence)
 }
 
@@ -140,6 +141,7 @@ type Result struct {
 	SkippedGo     []string
 	StubsUsed     []string
 	ForeignGlobals []string
+	Elided        []string
 	Samples       []PathSample
 	SampleObligs  []string
 	Wall          time.Duration
@@ -162,6 +164,7 @@ type Explorer struct {
 	skipGo  map[string]bool
 	stubsUsed map[string]bool
 	foreignGlobals map[string]bool
+	elided  map[string]bool
 	npaths  int
 	stop    bool
 }
@@ -173,6 +176,7 @@ func NewExplorer(prog *ssa.Program, entry *ssa.Function, cfg *Config) *Explorer 
 	x.skipGo = map[string]bool{}
 	x.stubsUsed = map[string]bool{}
 	x.foreignGlobals = map[string]bool{}
+	x.elided = map[string]bool{}
 	x.res = &Result{Entry: entry.Name(), Aborted: map[string]int{}, Reached: map[string]int{}, AssertSites: map[string]int{}}
 	return x
 }
@@ -209,6 +213,10 @@ func (x *Explorer) Run() *Result {
 		x.res.ForeignGlobals = append(x.res.ForeignGlobals, f)
 	}
 	sort.Strings(x.res.ForeignGlobals)
+	for f := range x.elided {
+		x.res.Elided = append(x.res.Elided, f)
+	}
+	sort.Strings(x.res.Elided)
 	x.res.Wall = time.Since(t0)
 	return x.res
 }
@@ -429,6 +437,15 @@ func decString(ds []Decision) string {
 // decisions
 
 func (in *interp) addPC(t *smt.Term) {
+	if in.pcSet == nil {
+		in.pcSet = map[int]bool{}
+	}
+	in.pcSet[t.ID] = true
+	if t.Op == "and" {
+		for _, a := range t.Args {
+			in.pcSet[a.ID] = true
+		}
+	}
 	in.pc = append(in.pc, t)
 	in.solver.Assert(t)
 }
@@ -453,6 +470,14 @@ func (in *interp) decide(c *smt.Term) bool {
 	if c.IsConst() {
 		return c.Val == 1
 	}
+	nc := in.ctx.Not(c)
+	// syntactic shortcut: the condition (or its negation) is already a conjunct of the path condition
+	if in.pcSet[c.ID] {
+		return true
+	}
+	if in.pcSet[nc.ID] {
+		return false
+	}
 	if in.pos < len(in.prefix) {
 		d := in.prefix[in.pos]
 		in.pos++
@@ -463,12 +488,11 @@ func (in *interp) decide(c *smt.Term) bool {
 		if d.Taken {
 			in.addPC(c)
 		} else {
-			in.addPC(in.ctx.Not(c))
+			in.addPC(nc)
 		}
 		return d.Taken
 	}
 	in.budget()
-	nc := in.ctx.Not(c)
 	rT := in.checkWith(c)
 	var rF smt.Result
 	if rT == smt.Unsat {
@@ -720,4 +744,18 @@ func (in *interp) renderConcrete(v value, model map[string]uint64, memo map[int]
 		return fmt.Sprint(v)
 	}
 	return fmt.Sprintf("<%T>", v)
+}
+
+func (x *Explorer) noteElided(instr *ssa.If) {
+	pos := x.prog.Fset.Position(instr.Cond.Pos())
+	if !pos.IsValid() {
+		pos = x.prog.Fset.Position(instr.Pos())
+	}
+	key := instr.Parent().String()
+	if pos.IsValid() {
+		key += " @" + pos.String()
+	}
+	x.mu.Lock()
+	x.elided[key] = true
+	x.mu.Unlock()
 }
